@@ -163,3 +163,25 @@ pub fn ghost_key(pressure: bool) -> std::sync::Arc<dyn Fn(&SeqRun) -> String + S
         s
     })
 }
+
+/// "Unswept" means what it says: no sweep of the shard of this entry's expiry has run at an instant past that
+/// expiry while the entry (same id, same expiry) was held. True when the entry of `k` held before step `upto`
+/// was passed over by such a sweep.
+pub fn passed_over_by_its_sweep(run: &SeqRun, upto: usize, k: K) -> bool {
+    let shards = run.setup.shards as u64;
+    let e = match run.obs[upto].entry(k) {
+        Some(e) => *e,
+        None => return false,
+    };
+    (0..upto).any(|j| {
+        matches!(run.calls[j].op, Op::TickWait | Op::Tick)
+            && run.obs[j].entry(k).map(|b| (b.2, b.3)) == Some((e.2, e.3))
+            && e.3.map_or(false, |x| run.obs[j].now_ms > x && (run.obs[j].now_ms / 1000) % shards == (x / 1000) % shards)
+    })
+}
+
+
+/// Deduplication key for oracles that classify an expired entry by whether a sweep has passed it over.
+pub fn passed_over_key(keys: Vec<K>) -> std::sync::Arc<dyn Fn(&SeqRun) -> String + Send + Sync> {
+    std::sync::Arc::new(move |run: &SeqRun| keys.iter().map(|k| if passed_over_by_its_sweep(run, run.ops.len(), *k) { '!' } else { '.' }).collect::<String>())
+}
